@@ -631,6 +631,13 @@ impl CollectionBuilder {
         // it's important to insert the alt-names first, as they might contain the main name.
         // If that happens, the inserted reference is overridden below.
         for alt_name in &host.alternative_names {
+            // an alternative name never takes the place of another host's own name
+            // (else a `Ref` could point to a `Ref`)
+            if alt_name != &host.name
+                && matches!(self.0.by_name.get(alt_name), Some(HostValue::Host(_)))
+            {
+                continue;
+            }
             self.0
                 .by_name
                 .insert(alt_name.clone(), HostValue::Ref(host.name.clone()));
